@@ -39,6 +39,67 @@ STEMS2 = ["shared", "resources", "common", "lib_types"]
 SUBS = ["keepers", "admin", "internal_api", "x", "beta.deep"]
 
 
+# mix-in services a service yaml can list (google.api.Service.apis) and their RPCs; an API may declare RPCs of the SAME NAMES
+# itself (on the mix-in's own request/response types where these make a plain RPC, None = an ordinary type of the API)
+MIXINS = {
+    "iam": ("google.iam.v1.IAMPolicy", {
+        "SetIamPolicy": ("google.iam.v1.SetIamPolicyRequest", "google.iam.v1.Policy"),
+        "GetIamPolicy": ("google.iam.v1.GetIamPolicyRequest", "google.iam.v1.Policy"),
+        "TestIamPermissions": ("google.iam.v1.TestIamPermissionsRequest", "google.iam.v1.TestIamPermissionsResponse")}),
+    "ops": ("google.longrunning.Operations", {
+        "ListOperations": ("google.longrunning.ListOperationsRequest", None),
+        "GetOperation": ("google.longrunning.GetOperationRequest", None),
+        "DeleteOperation": ("google.longrunning.DeleteOperationRequest", "google.protobuf.Empty"),
+        "CancelOperation": ("google.longrunning.CancelOperationRequest", "google.protobuf.Empty"),
+        "WaitOperation": ("google.longrunning.WaitOperationRequest", None)}),
+    "loc": ("google.cloud.location.Locations", {
+        "GetLocation": ("google.cloud.location.GetLocationRequest", "google.cloud.location.Location"),
+        "ListLocations": ("google.cloud.location.ListLocationsRequest", None)}),
+}
+MIXIN_FAMILY = {m: fam for fam, (_, rpcs) in MIXINS.items() for m in rpcs}
+EXT_MODULE = {"google.longrunning": "operations", "google.cloud.location": "locations"}
+
+
+def mixin_rule(m):
+    """an http rule of the service yaml for mix-in RPC `m` (only RPCs with a rule are mixed in)"""
+    fam = MIXIN_FAMILY[m]
+    sel = f"{MIXINS[fam][0]}.{m}"
+    if fam == "iam":
+        return {"selector": sel, "post": "/v1/{resource=shelves/*}:" + m[0].lower() + m[1:], "body": "*"}
+    return {"ListOperations": {"selector": sel, "get": "/v1/{name=shelves/*}/operations"},
+            "GetOperation": {"selector": sel, "get": "/v1/{name=shelves/*/operations/*}"},
+            "DeleteOperation": {"selector": sel, "delete": "/v1/{name=shelves/*/operations/*}"},
+            "CancelOperation": {"selector": sel, "post": "/v1/{name=shelves/*/operations/*}:cancel", "body": "*"},
+            "WaitOperation": {"selector": sel, "post": "/v1/{name=shelves/*/operations/*}:wait", "body": "*"},
+            "GetLocation": {"selector": sel, "get": "/v1/{name=projects/*/locations/*}"},
+            "ListLocations": {"selector": sel, "get": "/v1/{name=projects/*}/locations"}}[m]
+
+
+def services_of(spec):
+    """[(role, service name, methods)] in DECLARATION order (the order `API.services` iterates in)"""
+    spec = spec.get("_whole", spec)        # (a per-service view `dict(spec, service=…, methods=…)` keeps the API it is part of)
+    have = {"main": (spec.get("service", SERVICE), spec["methods"])}
+    for role in ("service2", "service3"):
+        if spec.get(role):
+            have[role] = (spec[role]["name"], spec[role]["methods"])
+    order = [x for x in spec.get("service_order") or [] if x in have]
+    order += [x for x in ("main", "service2", "service3") if x in have and x not in order]
+    return [(role,) + have[role] for role in order]
+
+
+def mixed_in(spec):
+    """RPC names the service yaml mixes into every client of the API, as the mix-in feature is specified (C17): the mix-in
+    service is listed under `apis`, the RPC has an http rule, and (IAM) the API does not declare an RPC of that name itself.
+    Operations and Locations know no such yielding."""
+    y = spec.get("yaml")
+    if not y:
+        return []
+    own = {me["name"] for _, _, ms in services_of(spec) for me in ms}
+    ruled = {ru["selector"] for ru in y["rules"]}
+    return [m for fam, (api, rpcs) in MIXINS.items() if api in y["apis"] for m in rpcs
+            if f"{api}.{m}" in ruled and not (fam == "iam" and m in own)]
+
+
 def pkg_of(spec, fidx):
     """proto package of target file `fidx` (0: the file that DECLARES THE SERVICES and the file-0 messages,
     1: the second target file) — read off the spec, i.e. what the `package` statement of that .proto file says"""
@@ -185,7 +246,79 @@ def gen_spec(r: apigen.Rng, idx=0):
             if name not in [x["name"] for x in m2]:
                 m2.append({"name": name, "input": typeref(False), "output": typeref(True), "cs": r.maybe(0.2), "ss": r.maybe(0.25)})
         spec["service2"] = {"name": r.pick(["Archive", "LibraryAdmin", "Kind"]), "methods": m2}
+    if r.maybe(0.4):
+        mixin_scenario(r, spec, typeref)
     return spec
+
+
+def ext_ref(full):
+    return {"kind": "iam" if full.startswith("google.iam.v1.") else "wkt" if full.startswith("google.protobuf.") else "ext", "full": full}
+
+
+def mixin_scenario(r, spec, typeref):
+    """A service yaml that lists mix-in services (IAMPolicy / Operations / Locations) with http rules, for an API of one, two or
+    three services (declared in random order) one of which may declare RPCs NAMED like mix-in RPCs itself — on the mix-in's own
+    request/response types or on ordinary ones —, with the corresponding mix-in listed or not, its rule present or not; the
+    legacy option add-iam-methods on/off."""
+    fam_own = r.pick(["iam", "iam", "iam", "ops", "loc", None])
+    nsvc = r.pick([1, 2, 2, 3, 3])
+    if nsvc == 1:
+        spec.pop("service2", None)
+    elif not spec.get("service2"):
+        spec["service2"] = {"name": r.pick(["Archive", "LibraryAdmin"]),
+                            "methods": [{"name": r.pick(["Restore", "Archive"]), "input": typeref(False), "output": typeref(True), "cs": False, "ss": r.maybe(0.3)}]}
+    if nsvc == 3:
+        spec["service3"] = {"name": r.pick(["Audit", "Reports"]),
+                            "methods": [{"name": nm, "input": typeref(False), "output": typeref(True), "cs": False, "ss": False}
+                                        for nm in ["Inspect", "Report"][:r.randint(1, 2)]]}
+    roles = ["main", "service2", "service3"][:nsvc]
+    r.shuffle(roles)
+    spec["service_order"] = roles                     # the declaring service comes first / in the middle / last
+    own = []
+    if fam_own:
+        holder = r.pick(["main", "main", "main", "service2"]) if nsvc >= 2 else "main"
+        names = list(MIXINS[fam_own][1])
+        r.shuffle(names)
+        own = names[:r.randint(1, 2)]
+        for nm in own:
+            cin, cout = MIXINS[fam_own][1][nm]
+            canonical = r.maybe(0.7)
+            me = {"name": nm, "input": ext_ref(cin) if canonical else typeref(False),
+                  "output": ext_ref(cout) if (canonical and cout) else typeref(True),
+                  "cs": (not canonical) and r.maybe(0.2), "ss": (not canonical) and r.maybe(0.25)}
+            if holder == "main":
+                spec["methods"].insert(r.randint(0, len(spec["methods"])), me)
+            else:
+                spec["service2"]["methods"].insert(0, me)          # among the RPCs the shared-channel program calls
+    if fam_own != "iam" and r.maybe(0.2):
+        # (an API that declares IAM-named RPCs itself is not generated with the option that ADDS the IAM methods: assumption)
+        spec["options"] = ",".join(x for x in [spec.get("options"), "add-iam-methods"] if x)
+    listed, rules = [], []
+    for fam, (api, rpcs) in MIXINS.items():
+        on = r.maybe(0.8 if fam == fam_own else 0.45)
+        if on:
+            listed.append(api)
+        dense = r.pick([0.5, 1.0]) if on else r.pick([0.0, 0.5])
+        for m in rpcs:
+            if m in own:
+                # Operations / Locations mix-ins do not yield to a same-named RPC of the API (open finding): produced seldom
+                want = r.maybe(0.12 if (on and fam != "iam") else 0.75)
+            else:
+                want = r.maybe(dense)
+            if want:
+                rules.append(mixin_rule(m))
+    if r.maybe(0.3):
+        listed.append(r.pick([f"{svc_pkg(spec)}.{SERVICE}", "google.cloud.location.Location", "google.iam.v1.IAMPolicy2"]))   # noise
+    r.shuffle(listed)
+    r.shuffle(rules)
+    spec["yaml"] = {"apis": listed, "rules": rules}
+
+
+def shadowed_by_mixin(spec, me):
+    """an RPC of the API whose name is also mixed in (statement level: only Operations / Locations names can be), or added by
+    the legacy option add-iam-methods (excluded point)"""
+    return me is not None and (me["name"] in mixed_in(spec) or
+                               (MIXIN_FAMILY.get(me["name"]) == "iam" and "add-iam-methods" in spec.get("options", "")))
 
 
 # ------------------------------------------------------------------ spec -> descriptors
@@ -233,13 +366,12 @@ def build_files(spec):
         for nst in m.get("nested", []):
             add_fields(mm.nested(nst["name"]), nst["fields"])
     f.dep("google/iam/v1/iam_policy.proto", "google/iam/v1/policy.proto")
-    svc = f.service(spec.get("service", SERVICE))
-    for me in spec["methods"]:
-        svc.method(me["name"], "." + me["input"]["full"], "." + me["output"]["full"], cs=me["cs"], ss=me["ss"])
-    if spec.get("service2"):
-        svc2 = f.service(spec["service2"]["name"])
-        for me in spec["service2"]["methods"]:
-            svc2.method(me["name"], "." + me["input"]["full"], "." + me["output"]["full"], cs=me["cs"], ss=me["ss"])
+    for _, sname, smethods in services_of(spec):
+        svc = f.service(sname)
+        for me in smethods:
+            if "google.cloud.location." in me["input"]["full"] + me["output"]["full"]:
+                f.dep("google/cloud/location/locations.proto")
+            svc.method(me["name"], "." + me["input"]["full"], "." + me["output"]["full"], cs=me["cs"], ss=me["ss"])
     targets.append(f)
     return deps + targets, targets, deps
 
@@ -275,6 +407,9 @@ def addr_of(spec, ref, alias=""):
     if full.startswith("google.iam.v1."):
         n = full.rsplit(".", 1)[1]
         return {"package": ["google", "iam", "v1"], "module": "policy" if n == "Policy" else "iam_policy", "parent": [], "name": n, "alias": alias}
+    for xp, xm in EXT_MODULE.items():
+        if full.startswith(xp + "."):
+            return {"package": xp.split("."), "module": xm, "parent": [], "name": full[len(xp) + 1:], "alias": alias}
     dep_pkg = spec.get("dep_pkg", DEP_PKG)
     if ref["kind"] == "dep":
         return {"package": dep_pkg.split("."), "module": "common", "parent": [], "name": full[len(dep_pkg) + 1:], "alias": alias}
@@ -296,7 +431,7 @@ def model_service(spec, aliases):
         ms.append({"name": me["name"], "cs": me["cs"], "ss": me["ss"],
                    "input": addr_of(spec, me["input"], aliases.get(me["input"]["full"], "")),
                    "output": addr_of(spec, me["output"], aliases.get(me["output"]["full"], ""))})
-    return {"package": svc_pkg(spec).split("."), "name": spec.get("service", SERVICE), "methods": ms, "has_lro": False, "mixins": []}
+    return {"package": svc_pkg(spec).split("."), "name": spec.get("service", SERVICE), "methods": ms, "has_lro": False, "mixins": mixed_in(spec)}
 
 
 def model_naming(spec):
@@ -324,6 +459,10 @@ def classify(spec, me, asy, what):
     stems = [spec["stem"], spec.get("stem2") or ""] + list(spec.get("module_of", {}).values())
     if any(s.endswith("_pb2") for s in stems) and what in ("session:AttributeError", "serializer-family"):
         return "pb2-named-proto-file"
+    if me is not None and me["name"] in mixed_in(spec) and MIXIN_FAMILY[me["name"]] in ("ops", "loc") \
+            and not what.startswith(("session:", "generation-crash", "multi-client:session", "serializer-family")):
+        # every observation of a call of THIS method (path, arity, payload, return, exception): the call reached the mix-in RPC
+        return "mixin-shadows-own-rpc:operations-locations"
     if me is not None and me["output"]["full"] == "google.protobuf.Empty" and (me["ss"] or me["cs"]) and asy \
             and what == "call-count":
         return "void-streaming:async-call-dropped"
@@ -628,6 +767,26 @@ def run_api(ctx, r, spec, label, per_method=1, informational=None, multi_client=
     assumption, not as oracle failures)"""
     files, targets, deps = build_files(spec)
     params = "transport=grpc,autogen-snippets=false" + ("," + spec["options"] if spec.get("options") else "")
+    ypath = None
+    if spec.get("yaml"):
+        # the service yaml (google.api.Service) handed to the generator: mix-in services under `apis`, their http rules
+        import tempfile, yaml
+        fd, ypath = tempfile.mkstemp(prefix="c03_", suffix=".yaml", dir=genrun.SCRATCH)
+        with os.fdopen(fd, "w") as fh:
+            yaml.safe_dump({"type": "google.api.Service", "config_version": 3, "name": "lib.example.com",
+                            "apis": [{"name": a} for a in spec["yaml"]["apis"]], "http": {"rules": spec["yaml"]["rules"]}}, fh)
+        params += f",service-yaml={ypath}"
+    try:
+        return _run_api(ctx, r, spec, label, per_method, informational, multi_client, files, targets, deps, params)
+    finally:
+        if ypath:
+            try:
+                os.unlink(ypath)
+            except OSError:
+                pass
+
+
+def _run_api(ctx, r, spec, label, per_method, informational, multi_client, files, targets, deps, params):
     req = apigen.request(files, params, targets=targets)
     payload = {"spec": spec}
 
@@ -696,11 +855,15 @@ def run_api(ctx, r, spec, label, per_method=1, informational=None, multi_client=
     mo, msvc, mnam = t2(spec, svc)
     svc2 = loc2 = spec2 = None
     if spec.get("service2") and not informational:
-        spec2 = dict(spec, service=spec["service2"]["name"], methods=spec["service2"]["methods"])
+        spec2 = dict(spec, service=spec["service2"]["name"], methods=spec["service2"]["methods"], _whole=spec)
         svc2 = api.services[f"{svc_pkg(spec2)}.{spec2['service']}"]
         loc2 = rpc.py_locations(api, svc2)
         t2(spec2, svc2)
         ctx.count("shape", "two-services")
+    if spec.get("service3") and not informational:
+        spec3 = dict(spec, service=spec["service3"]["name"], methods=spec["service3"]["methods"], _whole=spec)
+        t2(spec3, api.services[f"{svc_pkg(spec3)}.{spec3['service']}"])
+        ctx.count("shape", "three-services")
     # ---------------------------------------------------------------- T3
     res, err = genrun.try_generate(req)
     if err:
@@ -809,6 +972,16 @@ def run_api(ctx, r, spec, label, per_method=1, informational=None, multi_client=
             ctx.count("request_type", me["input"]["kind"] + (":nested" if in_full.count(".") > 3 and me["input"]["kind"] == "local" else ""))
             ctx.count("response_type", "void" if me["output"]["full"].endswith(".Empty") and me["output"]["kind"] == "wkt" else me["output"]["kind"])
             ctx.count("package_layout", "flat" if not spec.get("subs") else "svc-sub" if not spec["subs"][1] else "types-sub" if not spec["subs"][0] else "both-sub")
+            if spec.get("yaml") or "add-iam-methods" in spec.get("options", ""):
+                svs = services_of(spec)
+                pos = [("only" if len(svs) == 1 else "first" if i == 0 else "last" if i == len(svs) - 1 else "middle")
+                       for i, (_, _, ms) in enumerate(svs) if any(x["name"] in MIXIN_FAMILY for x in ms)]
+                fam = MIXIN_FAMILY.get(me["name"])
+                ctx.count("mixin_setting", f"{len(svs)}svc:declaring={'+'.join(pos) or 'none'}" + (":add-iam" if "add-iam-methods" in spec.get("options", "") else ""))
+                if fam:
+                    y = spec.get("yaml") or {"apis": [], "rules": []}
+                    ctx.count("mixin_named_rpc", f"{fam}:{'listed' if MIXINS[fam][0] in y['apis'] else 'unlisted'}:"
+                              f"{'ruled' if any(ru['selector'] == MIXINS[fam][0] + '.' + me['name'] for ru in y['rules']) else 'no-rule'}")
             ctx.count("name_class", "keyword" if me["name"] in KEYWORD_NAMES else "unsafe" if me["name"] in UNSAFE_NAMES else "plain")
             # ---------------- impl trace, canonical
             if "ok" not in res_:
@@ -852,6 +1025,9 @@ def run_api(ctx, r, spec, label, per_method=1, informational=None, multi_client=
                 if not ok_ret:
                     fail("return", f"{fl} {me['name']}: returned {str(ret)[:300]}, server sent {str(want_ret)[:300]}", me, asy, extra=extra)
             # ---------------- correspondence with the model
+            if shadowed_by_mixin(spec, me):
+                ctx.unsupported += 1          # WF.later violated: what a mix-in stub does is outside the model (C17)
+                continue
             if "unsupported" in mr:
                 ctx.unsupported += 1
                 continue
@@ -922,6 +1098,8 @@ def _m(name, inp="Req", out="Book", cs=False, ss=False):
             return {"kind": "wkt", "full": x}
         if x.startswith("google.iam.v1."):
             return {"kind": "iam", "full": x}
+        if x.startswith(tuple(k + "." for k in EXT_MODULE)):
+            return {"kind": "ext", "full": x}
         if x.startswith(DEP_PKG + ".") or x.startswith("acme.lib.v1beta."):
             return {"kind": "dep", "full": x}
         if x.startswith(PKG + "."):
@@ -981,7 +1159,42 @@ def corpus_specs():
         stem="lib", stem2="resources", subs=["beta.deep", "admin"],
         messages=[{"name": "Book", "file": 1, "nested": [], "fields": [{"name": "name", "type": "string"}, {"name": "pages", "type": "int32"}]},
                   {"name": "Req", "file": 0, "nested": [], "fields": [{"name": "name", "type": "string"}, {"name": "n", "type": "int32", "optional": True}]}]), None))
+    # RPCs NAMED like mix-in RPCs, declared by the API itself, next to a service yaml that lists the mix-in with http rules.
+    # IAM mix-ins yield to them (whichever service declares them: first, middle or last of three): these must PASS
+    IA, L, C = "google.iam.v1.", "google.longrunning.", "google.cloud.location."
+
+    def yml(fams, ms):
+        return {"apis": [MIXINS[x][0] for x in fams], "rules": [mixin_rule(m) for m in ms]}
+    all_iam = ["SetIamPolicy", "GetIamPolicy", "TestIamPermissions"]
+    s2 = {"name": "Archive", "methods": [_m("Restore"), _m("Import", "Req", "Book", False, True)]}
+    s3 = {"name": "Audit", "methods": [_m("Inspect")]}
+    own_iam = [_m("GetBook"), _m("SetIamPolicy", IA + "SetIamPolicyRequest", IA + "Policy"), _m("Watch", "Req", "Book", False, True),
+               _m("TestIamPermissions", "Req", "Book", True, True), _m("Purge", "Req", E)]
+    for order in (["main", "service2", "service3"], ["service2", "main", "service3"], ["service3", "service2", "main"]):
+        out.append(("own_iam_rpcs_declared_" + {0: "first", 1: "middle", 2: "last"}[order.index("main")] + "_of_three", _base_spec(
+            copy.deepcopy(own_iam), service2=copy.deepcopy(s2), service3=copy.deepcopy(s3), service_order=order,
+            yaml=yml(["iam", "ops", "loc"], all_iam + ["GetOperation", "ListLocations"])), None))
+    # ... also when ANOTHER service of the API (first of two) declares them and is called over a shared channel
+    out.append(("own_iam_rpc_of_other_service", _base_spec(
+        [_m("GetBook"), _m("Purge", "Req", E)], service_order=["service2", "main"],
+        service2={"name": "Archive", "methods": [_m("GetIamPolicy", IA + "GetIamPolicyRequest", IA + "Policy"), _m("Restore")]},
+        yaml=yml(["iam"], all_iam)), None))
+    # mix-ins next to RPCs of other names; own Operations/Locations-named RPCs whose mix-in is not listed / has no rule; add-iam-methods
+    out.append(("mixins_listed_no_name_shared", _base_spec(
+        [_m("GetBook"), _m("Purge", "Req", E), _m("Watch", "Req", "Book", False, True), _m("GetOperation", L + "GetOperationRequest", "Book"),
+         _m("GetLocation", C + "GetLocationRequest", C + "Location"), _m("DeleteOperation", L + "DeleteOperationRequest", E)],
+        service2=copy.deepcopy(s2), options="add-iam-methods",
+        yaml=yml(["iam", "ops"], all_iam + ["ListOperations", "CancelOperation", "GetLocation", "ListLocations"])), None))
+    # OPEN finding: Operations / Locations mix-ins do NOT yield: the API's own RPC of that name is shadowed in client and transport
+    out.append(("own_rpc_named_like_operations_locations_mixin", _base_spec(
+        [_m("GetBook"), _m("DeleteOperation", L + "DeleteOperationRequest", E), _m("GetOperation", L + "GetOperationRequest", "Book"),
+         _m("GetLocation", C + "GetLocationRequest", C + "Location"), _m("ListLocations", "Req", "Book", False, True)],
+        yaml=yml(["ops", "loc"], ["DeleteOperation", "GetOperation", "ListOperations", "GetLocation", "ListLocations"])), None))
     # excluded points of `WF` that are NOT findings of this property (recorded as assumptions)
+    out.append(("own_iam_rpc_with_add_iam_methods", _base_spec(
+        [_m("GetBook"), _m("SetIamPolicy", IA + "SetIamPolicyRequest", IA + "Policy")], options="add-iam-methods"),
+                "the option add-iam-methods (which ADDS set_iam_policy / get_iam_policy / test_iam_permissions to every client) is not given "
+                "for an API that declares IAM-named RPCs itself (the added methods replace the API's own)"))
     out.append(("snake_collision", _base_spec([_m("GetBook"), _m("Get_book")]),
                 "RPC names of one service have pairwise distinct snake_case forms (WF.keys / WF.attrs; naming collisions are C12's subject)"))
     out.append(("string_prefix_package", _base_spec([_m("GetBook"), _m("Annotate", "acme.lib.v1beta.Note", "Book")], dep=True,
@@ -1049,13 +1262,17 @@ def run(ctx):
     ctx.rule = ("APIs of the 'rpc' profile (2..5 random messages over scalar/enum/message/map/oneof/optional/well-known/"
                 "dependency-package fields in one or two target files — all in one proto package, or the file declaring the services / the other "
                 "file / both in a (possibly nested) sub-package of the API —, 4..8 RPCs covering all four arities, void, request/response "
-                "from the package, nested, well-known and a second (pb2) package, keyword and transport-unsafe names) x random request "
+                "from the package, nested, well-known and a second (pb2) package, keyword and transport-unsafe names; in 4 of 10 APIs a service "
+                "yaml listing mix-in services (IAMPolicy / Operations / Locations, with http rules) for one, two or three services declared in "
+                "random order, one of which may declare RPCs NAMED like mix-in RPCs itself, add-iam-methods on/off) x random request "
                 "and reply valuations x request given as instance/dict/omitted/iterator x {sync, asyncio}; distinct by (method shape, "
                 "mode, flavour, valuations); non-trivial = every call")
     ctx.assume("LRO, paginated and extended-operation methods are outside this check (C07, C08); no flattened fields (C05), no mixins (C17), no selective generation (C16)")
     ctx.assume("RPC names are ASCII identifiers; every API is generated with autogen-snippets=false (snippet generation for a service of a "
                "sub-package raises KeyError: finding of C14/C01, not this property's subject); sub-package names differ in their first letter "
                "(so that the common root of the packages is acme.lib.v1: Naming.build is C11's subject)")
+    ctx.assume("only the API's OWN RPCs are called (what a mixed-in RPC does is C17's subject); the option add-iam-methods is not given for an "
+               "API that declares IAM-named RPCs itself (probed: corpus own_iam_rpc_with_add_iam_methods)")
     ctx.assume("a unary-response RPC is answered with exactly one message; replies of a void RPC are empty messages")
     ctx.assume("the dict form of a request is the mapping a caller writes by hand: proto field names -> native python values")
     run_corpus(ctx)
